@@ -41,6 +41,10 @@ type params struct {
 	Cwd    string    `json:"cwd"`   // modroot | pkg:<i> | other | fsroot | parent
 	Fault  string    `json:"fault"` // "" or a fault kind
 	FaultA int       `json:"fault_arg"`
+	// Second: after a successful fault-free load the tree is damaged in this
+	// way and the very same arguments are loaded again in the same process:
+	// the second load must see the new state of the file system
+	Second string `json:"second_act,omitempty"`
 }
 
 type c17 struct{}
@@ -60,7 +64,7 @@ var dirNames = [][]string{
 	{"models", "Models"}, {"api", "API", "Api"}, {"api/v1", "apiclient", "api"},
 }
 
-var faults = []string{"missing", "not_go", "type_error_root", "type_error_import", "type_error_import", "type_error_import_body", "type_error_import_body", "dir_for_file", "dangling_symlink", "go_unavailable", "empty_go_file",
+var faults = []string{"missing", "not_go", "type_error_root", "type_error_import", "type_error_import", "type_error_import_body", "type_error_import_body", "unused_import_root", "unused_import_dep", "dir_for_file", "dangling_symlink", "go_unavailable", "empty_go_file",
 	"syntax_error_root", "import_of_missing_package", "no_go_mod"}
 
 // faults after which the property does not promise an error (only: no crash)
@@ -168,6 +172,9 @@ func (c17) Generate(env *kernel.Env, r *kernel.Rand, index int) any {
 	}
 	if r.Chance(1, 3) {
 		p.Fault = kernel.Pick(r, faults)
+		p.FaultA = r.Intn(64)
+	} else if r.Chance(1, 3) {
+		p.Second = kernel.Pick(r, []string{"type_error_root", "syntax_error_root", "missing", "type_error_import"})
 		p.FaultA = r.Intn(64)
 	}
 	return p
@@ -322,7 +329,7 @@ func (c17) Execute(env *kernel.Env, raw json.RawMessage, ch *kernel.Choices) *ke
 	}
 	if fault != "" {
 		k := p.FaultA % len(args)
-		if strings.HasPrefix(fault, "type_error_import") {
+		if strings.HasPrefix(fault, "type_error_import") || fault == "unused_import_dep" {
 			// choose an argument whose package imports another one, preferably
 			// one whose dependency is not itself among the arguments
 			best := -1
@@ -379,6 +386,16 @@ func (c17) Execute(env *kernel.Env, raw json.RawMessage, ch *kernel.Choices) *ke
 			}
 			dep := p.Pkgs[tpkg].Imports[0]
 			must(os.WriteFile(filepath.Join(modRoot, filepath.FromSlash(p.Pkgs[dep].Dir), "zz_broken.go"), []byte(fmt.Sprintf("package %s\n\nfunc brokenBody() int {\n\tvar s string = 3\n\treturn s\n}\n", p.Pkgs[dep].Name)), 0o644))
+		case "unused_import_root":
+			// an unused import is a type error like any other
+			must(os.WriteFile(filepath.Join(filepath.Dir(target), "zz_unused.go"), []byte(fmt.Sprintf("package %s\n\nimport \"fmt\"\n", p.Pkgs[tpkg].Name)), 0o644))
+		case "unused_import_dep":
+			if len(p.Pkgs[tpkg].Imports) == 0 {
+				fault = ""
+				break
+			}
+			dep := p.Pkgs[tpkg].Imports[0]
+			must(os.WriteFile(filepath.Join(modRoot, filepath.FromSlash(p.Pkgs[dep].Dir), "zz_unused.go"), []byte(fmt.Sprintf("package %s\n\nimport strs \"strings\"\n", p.Pkgs[dep].Name)), 0o644))
 		case "dir_for_file":
 			args[k] = filepath.Dir(target)
 			absFiles[k] = filepath.Dir(target)
@@ -501,6 +518,51 @@ func (c17) Execute(env *kernel.Env, raw json.RawMessage, ch *kernel.Choices) *ke
 		if !isAncestor(absRoot, f) {
 			return viol("root_is_not_an_ancestor", sig, "common root %q is not an ancestor of file %d (%s)", relOne(base, root), i, relOne(base, f))
 		}
+	}
+	if p.Second != "" {
+		// second act: damage the tree, load the same arguments again
+		k := p.FaultA % len(args)
+		target := absFiles[k]
+		tpkg := pkgOfArg(k)
+		applied := p.Second
+		switch p.Second {
+		case "type_error_root":
+			must(os.WriteFile(filepath.Join(filepath.Dir(target), "zz_broken.go"), []byte(fmt.Sprintf("package %s\n\nvar broken int = \"not an int\"\n", p.Pkgs[tpkg].Name)), 0o644))
+		case "syntax_error_root":
+			must(os.WriteFile(filepath.Join(filepath.Dir(target), "zz_syntax.go"), []byte(fmt.Sprintf("package %s\n\nfunc broken( {\n", p.Pkgs[tpkg].Name)), 0o644))
+		case "missing":
+			must(os.Remove(target))
+		case "type_error_import":
+			if len(p.Pkgs[tpkg].Imports) == 0 {
+				applied = "type_error_root"
+				must(os.WriteFile(filepath.Join(filepath.Dir(target), "zz_broken.go"), []byte(fmt.Sprintf("package %s\n\nvar broken int = \"not an int\"\n", p.Pkgs[tpkg].Name)), 0o644))
+			} else {
+				dep := p.Pkgs[tpkg].Imports[0]
+				must(os.WriteFile(filepath.Join(modRoot, filepath.FromSlash(p.Pkgs[dep].Dir), "zz_broken.go"), []byte(fmt.Sprintf("package %s\n\nvar broken int = \"not an int\"\n", p.Pkgs[dep].Name)), 0o644))
+			}
+		}
+		out.Fault("second_act_" + applied)
+		must(os.Chdir(cwd))
+		var err2 error
+		var panicked2 any
+		func() {
+			defer func() {
+				if r := recover(); r != nil {
+					panicked2 = r
+				}
+			}()
+			_, _, err2 = analysis.LoadSources(args)
+		}()
+		os.Chdir(oldwd)
+		fault = "second load after " + applied
+		if panicked2 != nil {
+			return viol("load_panics", "second act", "the second LoadSources panicked: %v", panicked2)
+		}
+		if err2 == nil {
+			return viol("stale_result_after_change", "second act="+applied, "the files were loaded successfully, then the tree was damaged (%s) and the same arguments were loaded again in the same process: no error was reported", applied)
+		}
+		fault = ""
+		out.Probe("second_act_reported")
 	}
 	ndirs := map[string]bool{}
 	for _, f := range absFiles {
